@@ -175,7 +175,7 @@ def random_request(rng, solver, maxn):
     if rng.random() < 0.3:
         kw["lm"] = (rng.choice([1e-6, 1e-3, 1.0, 0.0]), rng.choice([1e-4, 0.5, -1.0]), 0.25, 0.75,
                     rng.choice([1e-8, 1e-2]))
-    if rng.random() < 0.25:          # the classes leave delta_zeros / fzeros_1 uninitialised: give them values
+    if rng.random() < 0.25:          # delta_zeros / fzeros_1 as left by a previous resolution (zero after construction)
         kw["dz0"] = [rng.randint(-8, 8) / 4.0 for _ in range(n)]
         kw["fz1"] = [rng.randint(-8, 8) / 4.0 for _ in range(n)]
     return Req(solver, n, itermax, eps, x0, A, cq, b, J0, dflt, script, cls="random", **kw)
@@ -392,7 +392,7 @@ def run(ck):
             ck.violation("leanchecker:" + m, "leanchecker rejects %s" % m, {"log": msg}, False)
 
     reqs = tie_requests() + structural_requests(ck.quick)
-    n_rand = 1500 if ck.quick else 40000
+    n_rand = 1500 if ck.quick else 12000
     for s in SOLVERS:
         reqs += [random_request(rng, s, maxn) for _ in range(n_rand)]
     by_solver = {s: [r for r in reqs if r.solver == s] for s in SOLVERS}
